@@ -197,4 +197,17 @@ CHECKS = {
         "note": "linearizability of concurrent histories rests on the regenerated lock structure (atomic steps) and is exercised by the brute-force acceptor on recorded histories",
         "technique": "Lean 4 proof (registry invariant by induction over operation sequences) + regenerated tie lemmas (lock structure, check order) + exact sequential correspondence and linearizability-checked concurrent histories",
     },
+    "C12": {
+        "text": "Lean 4 theorem: for every sequence of subscription requests (registrations with repeated or foreign ids, "
+                "unregistrations of unknown ids, disconnects) from any number of connections, the goroutine of the object "
+                "never locks a mutex it already holds (invariant: no lock held between requests, handler slots of "
+                "registered users pairwise distinct and fresh) — with the pre-repair addSignalUser the second registration "
+                "of an id is stuck (refutation theorem); a duplicate is refused and leaves the existing subscription "
+                "alone; refutation theorem for what remains: replies written to a client that does not read block the "
+                "object once the transport's buffer is full; tied by the regenerated mailbox / RemoveHandler / "
+                "addSignalUser / removeSignalUser flows; hostile-client scenarios against a real server in child processes",
+        "note": "partial: the property is false of the code for a client that floods without reading and for hostile element counts "
+                "(known findings); time bounds are observed, not proved",
+        "technique": "Lean 4 proof (lock-discipline invariant by induction over request sequences, refutation witnesses) + regenerated tie lemmas + hostile-client scenarios in child processes with a probe client",
+    },
 }
